@@ -1,6 +1,7 @@
 package chsql
 
 import (
+	"math"
 	"strconv"
 	"strings"
 )
@@ -1065,6 +1066,15 @@ func (p *parser) parsePrimary() (Expr, error) {
 				}
 				return &Literal{Val: uint8(0)}, nil
 			}
+		case "NAN", "INF":
+			// ClickHouse's number parser accepts nan / inf (any case) as Float64 literals
+			if !p.isOpAt(1, "(") && !p.isOpAt(1, ".") {
+				p.i++
+				if up == "NAN" {
+					return &Literal{Val: math.NaN()}, nil
+				}
+				return &Literal{Val: math.Inf(1)}, nil
+			}
 		case "SELECT", "WITH", "FROM", "WHERE":
 			return nil, syntaxErr(t.pos, "unexpected keyword %s", up)
 		case "CASE":
@@ -1256,6 +1266,11 @@ func (p *parser) parseCall(name string) (Expr, error) {
 	if err != nil {
 		return nil, err
 	}
+	if strings.EqualFold(name, "count") && len(args) == 1 {
+		if st, ok := args[0].(*Star); ok && st.Qualifier == "" {
+			args = nil // count(*) is count()
+		}
+	}
 	f := &Func{Name: name, Args: args, Distinct: distinct}
 	if p.isOp("(") {
 		// parametric aggregate: f(params)(args)
@@ -1274,7 +1289,7 @@ func (p *parser) parseCall(name string) (Expr, error) {
 	// normalise the case-insensitive SQL-standard spellings that occur
 	switch strings.ToLower(name) {
 	case "count", "sum", "min", "max", "avg", "any", "lower", "upper", "length", "abs", "round", "floor", "ceil",
-		"coalesce", "least", "greatest", "concat", "substring", "replace", "now", "if", "nullif", "ifnull", "trim", "position", "hex", "unhex", "tuple", "array", "cast", "mod", "pow", "power", "sqrt", "exp", "ln", "log", "log2", "log10", "truncate", "trunc", "date", "year", "month", "tohour":
+		"coalesce", "least", "greatest", "concat", "substring", "replace", "now", "if", "trim", "position", "hex", "unhex", "tuple", "array", "cast", "mod", "pow", "power", "sqrt", "exp", "ln", "log", "log2", "log10", "truncate", "trunc", "date":
 		if ln := strings.ToLower(name); ln != name {
 			f.Name = ln
 		}
